@@ -13,11 +13,11 @@ from contracts import rbm as R
 
 LEVEL = "proof"
 MANIFEST = {
-    "engine": "qv-native",
+    "engine": "qv-native+qv-gen",
     "category": "proof",
     "technique": "contracts on the real functions, executed on symbolic real parameters; obligations discharged by exp-polynomial normal form and z3",
-    "text": "Every function between the property and the code (effective_energy, partition, probability, normalization, amplitude, phase, psi, importance-sampling accessors) has a contract against a spec built from the joint Boltzmann energy; each body is run symbolically with all weights and biases as free reals, callees stubbed by opaque spec values, and the Born-rule lemma is discharged over the specs. Holds for all parameter values at each enumerated architecture.",
-    "note": "floats treated as reals; torch primitive models assumed (conformance-sampled); shapes enumerated (quick: 4 architectures, thorough: nv 1..5 x nh 1..6), values unbounded",
+    "text": "Every function between the property and the code (effective_energy, partition, probability, normalization, amplitude, phase, psi, importance-sampling accessors) has a contract against a spec built from the joint Boltzmann energy; each body is run symbolically with all weights and biases as free reals, callees stubbed by opaque spec values, and the Born-rule lemma is discharged over the specs. Holds for all parameter values at each enumerated architecture. Additionally (front end G) effective_energy, partition, amplitude, phase, psi, probability and normalization are executed on tensors of symbolic shape and equal the unit-by-unit closed form for every number of visible / hidden units and every batch size; that this closed form is the marginal over all hidden configurations for every size is lean/Marginals.lean (Lean 4 + Mathlib), whose statement is printed from the contract at check time.",
+    "note": "floats treated as reals; torch primitive models assumed (conformance-sampled); shapes enumerated (quick: 4 architectures, thorough: nv 1..5 x nh 1..6), values unbounded; the shape-generic part (front end G) holds for all sizes and values, equalities decided by tensor-algebra normal form (sound, incomplete: a miss is undecided, never a violation without a replayed witness)",
 }
 EXPLANATION = ("Real function objects of qucumber executed on symbolic real parameters (all weights and all biases "
                "free reals); every entry of every result compared with the spec built from the joint Boltzmann energy "
